@@ -19,6 +19,9 @@ import os
 PM = 'src/Persistence_matrix/include/gudhi/Persistence_matrix/'
 ROW_TABLE = json.load(open(os.path.join(os.path.dirname(__file__), '..', 'tables', 'c05.json')))
 UNITS = [Unit('mx_pat', 'matrix_pat.cpp', [PM], no_inst=True)]
+FIELD_OPS = 'src/Persistence_matrix/include/gudhi/Fields/Zp_field_operators.h'
+TOP_UNITS = [Unit('mx_top', 'matrix_pat.cpp', ['src/Persistence_matrix/include/gudhi/Matrix.h', FIELD_OPS],
+                  no_inst=True)]
 RKIND = {'add_to': 'add', 'multiply_target_and_add_to': 'mta', 'multiply_source_and_add_to': 'msa',
          'swap_columns': 'swapc', 'swap_rows': 'swapr', 'insert_boundary': 'insert', 'remove_last': 'remove'}
 UKIND = dict(RKIND)
@@ -398,6 +401,8 @@ def run(tier, replay=None):
                           'chain_pairing.h', 'Id_to_index_overlay.h', 'Position_to_index_overlay.h'),
                  ROW_TABLE['find_invariants'], 'C05', 10)
     run_identifier_enumeration(chk, F)
+    run_coefficients_reduced(chk, F)
+    run_unset_characteristic(chk)
     chk.assumptions += ['clang 14 parser; template patterns', 'U is stored transposed for Z2: a column addition on R '
                         'is mirrored by add_to with exchanged indices or by one pushed entry']
     return chk
@@ -775,6 +780,132 @@ def run_dimension_overwrite(chk, F, only_unit=None, min_count=2):
                    'is replaced' % d, key='E10|%s::%s|dimension-kept|%s' % (f['clsname'], f['name'], x.get('l') if False
                                                                            else ir.show(x['c'][1])[:40]))
     chk.expect_count('E10-dimension-kept', 'assignments to a Dimension parameter', n, min_count)
+
+
+# ------------------------------------------------------------------ E9 coefficients of a boundary enter the field reduced
+RANGE_TPARAMS = ('Container', 'Boundary_range')
+CONSTRUCTS = ('CXXUnresolvedConstructExpr', 'CXXConstructExpr', 'CXXTemporaryObjectExpr', 'VarDecl', 'BinaryOperator')
+
+
+def _under_z2_arm(par, x):
+    cur = x
+    while id(cur) in par:
+        up = par[id(cur)]
+        if up.get('k') == 'IfStmt' and up.get('constexpr') and \
+                ir.show(up.get('cond')).replace(' ', '').split('::')[-1] in ('is_z2', '(is_z2)'):
+            th = up.get('then')
+            if cur is th or (th is not None and ir.contains(th, lambda y: y is x)):
+                return True
+        cur = up
+    return False
+
+
+def run_coefficients_reduced(chk, F, min_count=30):
+    """E9-coefficient-reduced: the coefficient of an entry of a boundary / column given by the caller (a parameter whose
+    type is the template parameter Container or Boundary_range) is an arbitrary integer; it becomes a field element
+    only through `operators.get_value`. Every read `e.second` of an element of such a parameter is the argument of a
+    get_value call, and the parameter is copied wholesale (begin()/end() handed to a constructor or assignment) only
+    in the arm `if constexpr (is_z2)` (where no coefficient is read). Handing the parameter on to another function is
+    not a read (the receiving function is checked)."""
+    n = 0
+    for f in F.functions:
+        if f['inst'] not in (0, 2) or f.get('body') is None or '/Persistence_matrix/' not in f['file'] and \
+                not f['file'].endswith('Matrix.h'):
+            continue
+        ps = [q for q in f.get('params', [])
+              if (q.get('t') or '').replace('const ', '').replace('&', '').strip() in RANGE_TPARAMS]
+        if not ps:
+            continue
+        par = ir.parents(f['body'])
+        who = '%s::%s' % (f.get('clsname'), f['name'].split('<')[0])
+        for q in ps:
+            for x in ir.walk(f['body']):
+                if x.get('k') == 'CXXForRangeStmt' and ir.skipcasts(x['range']).get('k') == 'DeclRefExpr' and \
+                        ir.skipcasts(x['range']).get('n') == q['n']:
+                    v = x['var'].get('n')
+                    for y in ir.walk(x['body']):
+                        if y.get('n') != 'second' or not y.get('c'):
+                            continue
+                        b = ir.skipcasts(y['c'][0])
+                        if b is None or b.get('k') != 'DeclRefExpr' or b.get('n') != v:
+                            continue
+                        n += 1
+                        up = par.get(id(y))
+                        while up is not None and up.get('k') in ('ImplicitCastExpr', 'ParenExpr'):
+                            up = par.get(id(up))
+                        ok = (up is not None and ir.is_call(up) and ir.call_name(up) == 'get_value') or \
+                            _under_z2_arm(par, y)
+                        chk.ob('E9-coefficient-reduced', '%s reads the coefficient `%s.second` of `%s` through '
+                               'get_value' % (who, v, q['n']), '%s:%s' % (rel(f['file']), y.get('l')), ok,
+                               '' if ok else 'the coefficient given by the caller is used as a field element without '
+                               'being reduced modulo the characteristic',
+                               key='E9|%s|%s|raw-coefficient' % (who, q['n']))
+                if x.get('k') == 'DeclRefExpr' and x.get('n') == q['n'] and x.get('dk') == 'ParmVar':
+                    up = par.get(id(x))
+                    if up is None or up.get('n') not in ('begin', 'end', 'cbegin', 'cend', 'rbegin', 'rend'):
+                        continue
+                    cur = par.get(id(up))   # the call begin()
+                    top = par.get(id(cur)) if cur is not None else None
+                    while top is not None and top.get('k') in ('ImplicitCastExpr', 'ParenExpr', 'ExprWithCleanups',
+                                                               'MaterializeTemporaryExpr', 'CXXBindTemporaryExpr',
+                                                               'ParenListExpr', 'InitListExpr'):
+                        top = par.get(id(top))
+                    if top is None or top.get('k') not in CONSTRUCTS or \
+                            (top.get('k') == 'BinaryOperator' and top.get('op') != '='):
+                        continue
+                    if top.get('k') == 'VarDecl' and 'iterator' in (top.get('t') or ''):
+                        continue
+                    n += 1
+                    ok = _under_z2_arm(par, x)
+                    chk.ob('E9-coefficient-reduced', '%s copies `%s` wholesale only where no coefficient is read (Z_2)'
+                           % (who, q['n']), '%s:%s' % (rel(f['file']), x.get('l')), ok,
+                           '' if ok else 'the entries of the caller are copied with their raw coefficients outside '
+                           'the Z_2 arm', key='E9|%s|%s|raw-copy' % (who, q['n']))
+    chk.expect_count('E9-coefficient-reduced', 'coefficient reads / wholesale copies of caller ranges', n, min_count)
+
+
+# ------------------------------------------------------------------ E4 "no characteristic yet" is one value
+def run_unset_characteristic(chk, min_count=5):
+    """E4-unset-characteristic: Matrix asks the field operators whether a characteristic was given
+    (`operators.get_characteristic() ==/!= v`: the warning of set_characteristic, the GUDHI_CHECKs "characteristic
+    has to be set" before the first insertion). The value v it compares with is the value the constructors of
+    Zp_field_operators store while no characteristic was set - read from their member initialisers. (The null value of
+    the matrix, -1, is what the *constructors of Matrix* take for "not specified"; the operators never hold it.)"""
+    F = facts.extract(TOP_UNITS)
+    unset = set()
+    for f in F.functions:
+        if (f.get('clsname') or '').split('<')[0] != 'Zp_field_operators' or f.get('kind') not in ('ctor', 'default_ctor'):
+            continue
+        for i in f.get('inits') or []:
+            if isinstance(i, dict) and i.get('member') == 'characteristic_' and i.get('written'):
+                lits = [y.get('v') for y in ir.walk(i.get('init')) if y.get('k') == 'IntegerLiteral']
+                if len(lits) != 1:
+                    raise AnalysisBroken('Zp_field_operators: initial characteristic_ is not one literal')
+                unset.add(int(lits[0]))
+    if len(unset) != 1:
+        raise AnalysisBroken('Zp_field_operators: no unique initial value of characteristic_ (%s)' % sorted(unset))
+    u = next(iter(unset))
+    n = 0
+    for f in F.functions:
+        if f.get('clsname') != 'Matrix' or f['inst'] not in (0, 2) or f.get('body') is None:
+            continue
+        for x in ir.walk(f['body']):
+            if x.get('k') != 'BinaryOperator' or x.get('op') not in ('==', '!='):
+                continue
+            sides = [ir.skipcasts(c) for c in x['c']]
+            gi = [i for i, c in enumerate(sides) if c is not None and ir.is_call(c) and
+                  ir.call_name(c) == 'get_characteristic']
+            if len(gi) != 1:
+                continue
+            o = sides[1 - gi[0]]
+            n += 1
+            ok = o is not None and o.get('k') == 'IntegerLiteral' and int(o.get('v')) == u
+            chk.ob('E4-unset-characteristic', 'Matrix::%s tests the characteristic of the operators against their own '
+                   '"not set" value %d' % (f['name'], u), '%s:%s' % (rel(f['file']), x.get('l')), ok,
+                   '' if ok else '`%s` compares with a value the operators never hold while unset (they start at %d): '
+                   'the test has one outcome' % (ir.show(x)[:90], u),
+                   key='E4|Matrix::%s|unset-characteristic' % f['name'])
+    chk.expect_count('E4-unset-characteristic', 'tests of the operators\' characteristic in Matrix', n, min_count)
 
 
 # ------------------------------------------------------------------ E2n a freed position leaves the bar dictionary
